@@ -127,18 +127,28 @@ def insertSorted (x : Int × Nat × Int) : List (Int × Nat × Int) → List (In
 
 def sortEntries (l : List (Int × Nat × Int)) : List (Int × Nat × Int) := l.foldr insertSorted []
 
-/-- entries of one code object: for each old line, the sums over the buckets this code object owns;
-    a key exists in a bucket iff it was bumped at least once, i.e. iff its `nhits > 0` -/
-def codeEntries (core : Core.St) (code : Code) (hs : List (Blk × Int)) : List (Int × Nat × Int) :=
-  let bl := hs.map Prod.snd
-  sortEntries <| (candLines core.regs code.blk).filterMap fun l =>
-    let n := Core.closed core bl code.blk l
-    if n > 0 then some (l, n, Core.closedT core bl code.blk l) else none
+/-- distinct labels in `code_hash_map` order -/
+def labelsOf (chm : List (Code × List (Blk × Int))) : List Nat := (chm.map (fun p => p.1.label)).eraseDups
 
-/-- `stats[label(code)] = entries` in `code_hash_map` order: a later code object with the same label
-    overwrites the earlier one -/
+/-- hits reported for old line `l` by the code objects `cs` (each sums the buckets it owns) -/
+def sumHits (core : Core.St) (cs : List (Code × List (Blk × Int))) (l : Int) : Nat :=
+  (cs.map fun p => Core.closed core (p.2.map Prod.snd) p.1.blk l).sum
+
+def sumTime (core : Core.St) (cs : List (Code × List (Blk × Int))) (l : Int) : Int :=
+  (cs.map fun p => Core.closedT core (p.2.map Prod.snd) p.1.blk l).sum
+
+/-- entries reported under one label: all code objects with that label are gathered and merged per
+    line number (`get_stats` after the fix of F-C12a); a key exists in a bucket iff it was bumped at
+    least once, i.e. iff its `nhits > 0` -/
+def labelEntries (core : Core.St) (chm : List (Code × List (Blk × Int))) (lab : Nat) : List (Int × Nat × Int) :=
+  let cs := chm.filter (fun p => p.1.label = lab)
+  let cand := (cs.flatMap fun p => candLines core.regs p.1.blk).eraseDups
+  sortEntries <| cand.filterMap fun l =>
+    let n := sumHits core cs l
+    if n > 0 then some (l, n, sumTime core cs l) else none
+
 def St.getStats (s : St) : List (Nat × List (Int × Nat × Int)) :=
-  s.chm.foldl (fun acc (p : Code × List (Blk × Int)) => aset p.1.label (codeEntries s.core.abs p.1 p.2) acc) []
+  (labelsOf s.chm).map fun lab => (lab, labelEntries s.core.abs s.chm lab)
 
 inductive Op
   | decl (f : Nat) (code : Code)      -- a function object comes into existence
